@@ -246,6 +246,96 @@ theorem callMap_prefix_fail (G : Batch α → Except ErrKind (Batch β)) (F : Ba
     simp only [List.map_cons, List.cons_append, callMap, hy]
     rw [ih (fun z hz => hpre z (by simp [hz]))]
 
+/-! ## functions with state -/
+
+theorem ignoreErr_callMapS_items {σ : Type} (G : σ → Batch α → Except ErrKind (Batch β) × σ) :
+    ∀ (xs : List (Batch α)) (s : σ),
+      ignoreErr (callMapS G s (xs.map .item)) = (okCallsS G s xs).map .item := by
+  intro xs
+  induction xs with
+  | nil => intro s; rfl
+  | cons b xs ih =>
+    intro s
+    simp only [List.map_cons, callMapS, okCallsS]
+    rcases hG : G s b with ⟨r, s'⟩
+    cases r with
+    | ok o => simp only [ignoreErr, List.map_cons]; rw [ih]
+    | error e => simp only [ignoreErr, ignorable, if_true]; rw [ih]
+
+theorem okCallsS_append {σ : Type} (G : σ → Batch α → Except ErrKind (Batch β) × σ) :
+    ∀ (xs ys : List (Batch α)) (s : σ),
+      okCallsS G s (xs ++ ys) = okCallsS G s xs ++ okCallsS G (stateAfter G s xs) ys := by
+  intro xs
+  induction xs with
+  | nil => intro ys s; rfl
+  | cons x xs ih =>
+    intro ys s
+    simp only [List.cons_append, okCallsS, stateAfter]
+    rcases hG : G s x with ⟨r, s'⟩
+    cases r with
+    | ok o => simp [ih]
+    | error e => simp [ih]
+
+/-- a function that ignores its state: the stateful chain is the stateless one -/
+theorem callMapS_const (G : Batch α → Except ErrKind (Batch β)) :
+    ∀ (evs : List (Pull (Batch α))) (u : Unit),
+      callMapS (fun u x => (G x, u)) u evs = callMap G evs := by
+  intro evs
+  induction evs with
+  | nil => intro u; rfl
+  | cons ev evs ih =>
+    intro u
+    cases ev with
+    | item b =>
+      simp only [callMapS, callMap]
+      cases G b with
+      | ok o => simp [ih]
+      | error e => simp [ih]
+    | raise e => simp [callMapS, callMap, ih]
+
+/-- a prefix of calls that all succeed, then a call that raises (stateful, no skipping) -/
+theorem callMapS_prefix_fail {σ : Type} (G : σ → Batch α → Except ErrKind (Batch β) × σ)
+    (x : Batch α) (post : List (Pull (Batch α))) :
+    ∀ (pre : List (Batch α)) (s : σ),
+      (okCallsS G s pre).length = pre.length → (∃ e, (G (stateAfter G s pre) x).1 = .error e) →
+      ∃ tail, callMapS G s (pre.map .item ++ .item x :: post)
+        = (okCallsS G s pre).map .item ++ .raise .value :: tail := by
+  intro pre
+  induction pre with
+  | nil =>
+    intro s _ ⟨e, he⟩
+    simp only [stateAfter] at he
+    rcases hG : G s x with ⟨r, s'⟩
+    rw [hG] at he; simp only at he; subst he
+    exact ⟨callMapS G s' post, by simp [callMapS, okCallsS, hG]⟩
+  | cons y pre ih =>
+    intro s hlen hx
+    simp only [okCallsS, stateAfter] at hlen hx
+    rcases hG : G s y with ⟨r, s'⟩
+    rw [hG] at hlen hx
+    cases r with
+    | ok o =>
+      simp only [List.length_cons, Nat.add_right_cancel_iff] at hlen
+      obtain ⟨tail, ht⟩ := ih s' hlen hx
+      exact ⟨tail, by simp [callMapS, okCallsS, hG, ht]⟩
+    | error e =>
+      -- a failing call in the prefix: fewer results than calls
+      exfalso
+      simp only [List.length_cons] at hlen
+      have : ∀ (l : List (Batch α)) (s : σ), (okCallsS G s l).length ≤ l.length := by
+        intro l
+        induction l with
+        | nil => intro s; simp [okCallsS]
+        | cons z l ihl =>
+          intro s
+          simp only [okCallsS]
+          rcases G s z with ⟨r, s''⟩
+          cases r with
+          | ok o => simp only [List.length_cons]; have := ihl s''; omega
+          | error e => simp only [List.length_cons]; have := ihl s''; omega
+      have := this pre s'
+      omega
+
 /-! Sample data for the non-vacuity examples / the contrast witness (round 10). -/
 
 /-- a batch function on `sampleStream`'s two columns: raises for the group that holds row 2,
